@@ -273,7 +273,13 @@ def check_property(pid, tier="quick", seed=0, manifest_level="proof", jobs=None,
         bmod = None
     if bmod is not None and not only:
         bounded = bmod.run(tier=tier, seed=seed)
+        info = getattr(bmod, "INFORMATIONAL", {})
         for chk in bounded.get("checks", []):
+            if chk["name"] in info:
+                chk["informational"] = info[chk["name"]]
+                chk["observations"] = len(chk.get("failures", []))
+                chk["observation_samples"] = chk.get("failures", [])[:2]
+                chk["failures"] = []
             for fail in chk.get("failures", []):
                 kf = match_known_bounded(active_known, chk["name"], fail)
                 if kf is not None:
